@@ -676,7 +676,13 @@ pub fn apply(m: &mut Module, st: &mut EditState, e: &Edit) -> (bool, String) {
             let funcs: Vec<FunctionId> = (0..*n).filter_map(|k| nth(m.funcs.iter().map(|f| f.id()), k * 7 + *kind as u32, nf)).collect();
             let funcref_table = m.tables.iter().find(|t| t.element_ty == RefType::Funcref && !t.table64).map(|t| t.id());
             let extern_table = m.tables.iter().find(|t| t.element_ty == RefType::Externref && !t.table64).map(|t| t.id());
-            let (k, items) = match (kind % 5, funcref_table, extern_table) {
+            // (kinds 5 and 6, round 16: expression-form funcref segments whose items are ALL ref.func -- the one shape an
+            // index-form segment could also express, so parse and emit must agree on which form it is)
+            let all_ref_func = || ElementItems::Expressions(RefType::Funcref, funcs.iter().map(|f| ConstExpr::RefFunc(*f)).collect());
+            let (k, items) = match (kind % 7, funcref_table, extern_table) {
+                (5, _, _) => (ElementKind::Passive, all_ref_func()),
+                (6, Some(t), _) => (ElementKind::Active { table: t, offset: ConstExpr::Value(Value::I32(2)) }, all_ref_func()),
+                (6, None, _) => (ElementKind::Declared, all_ref_func()),
                 (0, _, _) => (ElementKind::Passive, ElementItems::Functions(funcs)),
                 (1, _, _) => (ElementKind::Declared, ElementItems::Functions(funcs)),
                 (2, Some(t), _) => (ElementKind::Active { table: t, offset: ConstExpr::Value(Value::I32(1)) }, ElementItems::Functions(funcs)),
